@@ -157,6 +157,25 @@ def run(chk):
             if not ok:
                 oracle_bad.append(dict(info, what="expression value is not the pointwise arithmetic of its leaves",
                                        expected=want.tolist(), observed=got.tolist()))
+            # the other views of the same expression: the diagonal-only path k(X), products with a matrix, and (quasiseparable) the structured matrix
+            wd = np.array([f(a, a) for a in X2])
+            Ym = rng.normal(size=(len(X2), 2))
+            views = [("diagonal path k(X)", lambda: np.asarray(k(jnp.asarray(X2))), wd),
+                     ("k.matmul(X1, X2, Y)", lambda: np.asarray(k.matmul(jnp.asarray(X1), jnp.asarray(X2), jnp.asarray(Ym))), want @ Ym)]
+            if fam == "quasisep":
+                wsq = np.array([[f(a, b) for b in X2] for a in X2])
+                views += [("to_symm_qsm(X).to_dense()", lambda: np.asarray(k.to_symm_qsm(jnp.asarray(X2)).to_dense()), wsq),
+                          ("k.matmul(X, Y)", lambda: np.asarray(k.matmul(jnp.asarray(X2), jnp.asarray(Ym))), wsq @ Ym),
+                          ("to_general_qsm(X1, X2) @ I", lambda: np.asarray(k.to_general_qsm(jnp.asarray(X1), jnp.asarray(X2)) @ jnp.eye(len(X2))), want)]
+            for vname, gv, wv in views:
+                n_eval += 1
+                try:
+                    okv, dvv = close(gv(), wv, 1e-9)
+                    if not okv:
+                        oracle_bad.append(dict(info, what=f"expression value through {vname} is not the pointwise arithmetic of its leaves", expected=np.asarray(wv).tolist(),
+                                               observed=np.asarray(gv()).tolist()))
+                except Exception as e:  # noqa: BLE001
+                    oracle_bad.append(dict(info, what=f"{vname} raises {type(e).__name__}: {str(e)[:80]}"))
             if fam == "quasisep":
                 if not isinstance(k, qs.Quasisep):
                     oracle_bad.append(dict(info, what="quasiseparable expression is no longer quasiseparable", observed=type(k).__name__))
